@@ -248,6 +248,15 @@ def gen_can_schema(r, prefix="C", max_bindings=6, flat=False, buses=True, big_en
                     cnt = r.randint(1, min(16, 1 << m["type"][1]))
                     items.append(("signal", f["name"], [("mux_count", cnt), ("mux_signal", ("s", m["name"]))]))
                     used.add(f["name"])
+                # chained multiplexing: a signal that is multiplexed by m is itself the selector of another signal
+                inner = [f for f in cands if f is not m and f["name"] in used]
+                rest = [o for o in others if o is not m and o["name"] not in used]
+                if inner and rest and r.random() < 0.5:
+                    m2 = r.choice(inner)
+                    f = r.choice(rest)
+                    items.append(("signal", f["name"], [("mux_count", r.randint(1, min(16, 1 << m2["type"][1]))), ("mux_signal", ("s", m2["name"]))]))
+                    used.add(f["name"])
+                used.add(m["name"])
         if bitstart and r.random() < 0.3:
             # the documented 'bitstart' key on a signal block (the layout is fixed by the field ids: the key
             # moves nothing, neither on the wire nor in what describes the wire)
